@@ -13,7 +13,7 @@ ID = "C50"
 LEVEL = "proof"
 PROPS = "props/C50.v"
 RUNNER = ("SAV.orm.AssocProxyRun", "run_case")
-STATIC_MODULES = ["SAV.orm.AssocProxyRun", "SAV.orm.OrderingListProofs", "SAV.orm.AssocProxyProofs"]
+STATIC_MODULES = ["SAV.orm.AssocProxyRun", "SAV.orm.AssocProxyWitness"]
 RULE = (
     "ordering list: every single operation (append/insert/remove/pop/l[i]=x/l[sl]=v/del l[i]/del l[sl]/extend/+=/clear/"
     "sort/reverse/*=/reorder, indexes -5..5, slices over {None,-4..4}^2 x step {None,1,2,-1}) from lists of 0..4 "
